@@ -34,7 +34,7 @@ SIZES = (0, 1, 256, 65537)
 ENV_NAMES = ("A", "B", "AB", "__env_overrides__")
 ENV_VALUES = (None, "", "x", "A")
 OVR_NAMES = ("A", "B")
-OVR_VALUES = ("", "x", "B", "__env_overrides__")
+OVR_VALUES = ("", "x", "B", "__env_overrides__", "x B=x", " B=", "x B=", "x\x00B")  # values that spell a second assignment
 
 
 def maps(keys, values, maxlen):
